@@ -1184,10 +1184,15 @@ def _line_spacing_choice(c):
         ln.child[which] = SObj(None, which, val=None)
     kind = c.path.fork_free(3)  # None / lines / points
     v = None if kind == 0 else (c.real("lines") if kind == 1 else Pt(18))
+    before = (dict(pPr.count), pPr.child.get("lnSpc"))
     out = c.setattr(pPr, "line_spacing", v)
     if out.raised:
-        c.fails("never_raises", "raised %s" % out.exc)
+        # a value outside 0..132 lines is refused: nothing may have changed
+        c.ensures("rejected.only_ValueError_for_out_of_range", z3.And(out.exc.exc_cls is ValueError, kind == 1, z3.Or(v < 0, v > 132)) if kind == 1 else False)
+        c.ensures("rejected.nothing_changed", dict(pPr.count) == before[0] and pPr.child.get("lnSpc") is before[1])
         return
+    if kind == 1:
+        c.ensures("post.accepted_only_in_range", z3.And(v >= 0, v <= 132))
     if kind == 0:
         c.ensures("post.no_lnSpc_for_None", pPr.count["lnSpc"] == 0)
         return
